@@ -162,6 +162,9 @@ func ext۰reflect۰SliceOf(fr *frame, args []value) value {
 
 func ext۰reflect۰TypeOf(fr *frame, args []value) value {
 	// Signature: func (t reflect.rtype) Type
+	if args[0].(iface).t == nil {
+		return iface{} // reflect.TypeOf(nil) is a nil Type
+	}
 	return makeReflectType(rtype{args[0].(iface).t})
 }
 
